@@ -199,6 +199,17 @@ fn chk_startpos_with(_mode: &str, p: u64, pre: &[u8], build: &dyn Fn() -> Result
 // C17
 // ---------------------------------------------------------------------------------------------
 fn chk_torn(mode: &str, ops: &str) -> Result<(), String> {
+    // saves of the same archive on this thread that fail at one of their last operations (the header write, the final
+    // seek) come first: whatever such a save leaves behind must not put a finished header into the next save early
+    {
+        let (r, c0) = write_to(build_state(mode, ops)?, Core::new(Vec::new(), 0));
+        res(r, "to_writer")?;
+        for back in [1usize, 2, 3] {
+            let mut failing = Core::new(Vec::new(), 0);
+            failing.fail_from = Some(c0.ops.saturating_sub(back));
+            let _ = write_to(build_state(mode, ops)?, failing);
+        }
+    }
     let st = build_state(mode, ops)?;
     let mut core = Core::new(Vec::new(), 0);
     core.keep_data = true;
